@@ -7,9 +7,10 @@ ElemI = z3.ArraySort(IntS, z3.ArraySort(IntS, IntS))
 
 
 class State:
-    __slots__ = ("env", "heap", "pc", "abase", "nalloc", "tag")
+    __slots__ = ("env", "heap", "pc", "abase", "nalloc", "tag", "conds")
 
-    def __init__(self, env=None, heap=None, pc=None, abase=None, nalloc=0, tag=""):
+    def __init__(self, env=None, heap=None, pc=None, abase=None, nalloc=0, tag="", conds=None):
+        self.conds = conds if conds is not None else set()   # ids of the pc entries that are branch conditions
         self.env = env if env is not None else {}
         self.heap = heap if heap is not None else {}
         self.pc = pc if pc is not None else []
@@ -18,7 +19,13 @@ class State:
         self.tag = tag
 
     def fork(self):
-        return State(dict(self.env), dict(self.heap), list(self.pc), self.abase, self.nalloc, self.tag)
+        return State(dict(self.env), dict(self.heap), list(self.pc), self.abase, self.nalloc, self.tag, set(self.conds))
+
+    def add_cond(self, c):
+        """append a branch condition (as opposed to an assumed fact): merge selectors are built from these"""
+        c = to_z3(c, BoolS)
+        self.pc.append(c)
+        self.conds.add(c.get_id())
 
     def assume(self, c):
         if c is True or (is_z3(c) and z3.is_true(c)):
@@ -36,6 +43,8 @@ def _same(a, b):
         return a.eq(b)
     if isinstance(a, Ref) and isinstance(b, Ref):
         return a.e.eq(b.e) and a.cls == b.cls
+    if isinstance(a, ArrVal) and isinstance(b, ArrVal):
+        return a.arr.eq(b.arr)
     if isinstance(a, (int, Fraction, bool, str)) and isinstance(b, (int, Fraction, bool, str)):
         return type(a) == type(b) and a == b
     if a is None and b is None:
@@ -60,6 +69,8 @@ def merge_value(sel, a, b):
             cls = (a.cls if a is not None else None) or (b.cls if b is not None else None)
             return Ref(z3.If(sel, ea, eb), cls)
         return Poison("merge of reference and non-reference")
+    if isinstance(a, ArrVal) and isinstance(b, ArrVal) and a.arr.sort() == b.arr.sort():
+        return ArrVal(z3.If(sel, a.arr, b.arr), a.elem)
     if isinstance(a, Tuple_) and isinstance(b, Tuple_) and len(a.items) == len(b.items):
         return Tuple_([merge_value(sel, x, y) for x, y in zip(a.items, b.items)])
     if isinstance(a, bool) or isinstance(b, bool) or (is_z3(a) and z3.is_bool(a)) or (is_z3(b) and z3.is_bool(b)):
@@ -77,12 +88,57 @@ def merge_value(sel, a, b):
     return Poison("cannot merge %r / %r" % (type(a).__name__, type(b).__name__))
 
 
+def _has_quant(e):
+    seen, stack = set(), [e]
+    while stack:
+        x = stack.pop()
+        i = x.get_id()
+        if i in seen:
+            continue
+        seen.add(i)
+        if z3.is_quantifier(x):
+            return True
+        stack.extend(x.children())
+    return False
+
+
+def _exclusive(deltas):
+    ds = [z3.simplify(to_z3(d, BoolS)) for d in deltas]
+    for i in range(len(ds)):
+        for j in range(i):
+            if z3.is_false(z3.simplify(z3.And(ds[i], ds[j]))):
+                continue
+            s = z3.Solver()
+            s.set("timeout", 300)
+            s.add(ds[i], ds[j])
+            if s.check() != z3.unsat:
+                return False
+    return True
+
+
 def merge_states(parent_len, states):
-    """n-way merge of sibling states that share the first parent_len path-condition conjuncts."""
+    """n-way merge of sibling states that share the first parent_len path-condition conjuncts.
+    Branch selectors are the conjunctions of the BRANCH CONDITIONS in each branch's suffix (State.add_cond: if-tests,
+    loop guards, fresh exception discriminators - mutually exclusive between siblings by construction); facts assumed
+    inside a branch (callee post-conditions, heap well-formedness) are kept at top level, guarded by their branch
+    selector, instead of being buried in a disjunction.  For exclusive selectors this is equivalent to the
+    disjunction of the branch path conditions."""
     if len(states) == 1:
         return states[0]
     out = states[-1].fork()
-    deltas = [zand(*s.pc[parent_len:]) for s in states]
+    deltas, facts = [], []
+    for s in states:
+        suf = s.pc[parent_len:]
+        isc = [c.get_id() in s.conds for c in suf]
+        d = zand(*[c for c, qq in zip(suf, isc) if qq])
+        deltas.append(d)
+        for c, qq in zip(suf, isc):
+            if not qq:
+                facts.append(z3.Implies(d, c) if not z3.is_true(z3.simplify(d)) else c)
+    if not _exclusive(deltas):
+        # selectors not provably exclusive: exact fall-back (disjunction of the complete branch path conditions)
+        deltas = [zand(*s.pc[parent_len:]) for s in states]
+        facts = []
     for s, d in list(zip(states, deltas))[-2::-1]:
         env = {}
         for k in set(out.env) | set(s.env):
@@ -108,5 +164,5 @@ def merge_states(parent_len, states):
             out.abase = z3.If(d, s.abase, out.abase)
         out.nalloc = max(out.nalloc, s.nalloc)
     common = states[0].pc[:parent_len]
-    out.pc = common + ([zor(*deltas)] if not z3.is_true(z3.simplify(zor(*deltas))) else [])
+    out.pc = common + ([zor(*deltas)] if not z3.is_true(z3.simplify(zor(*deltas))) else []) + facts
     return out
